@@ -256,6 +256,8 @@ class EPModel(KModel):
             return Obj('zip', parts=a0.d['parts'] + [deref_all(args[1])])
         if last == 'fold_while' and isinstance(a0, Obj) and a0.kind == 'zip':
             return self.fold_while(a0, args[1], args[2], e)
+        if last in ('all', 'any') and isinstance(a0, Obj) and a0.kind == 'zip':
+            return self.zip_all(a0, args[1], last == 'all', e)
         if last == 'into_inner' and isinstance(a0, Enum) and a0.adt == 'ndarray::FoldWhile':
             return a0.fields['0']
         if isinstance(a0, Dim):
@@ -678,6 +680,34 @@ class EPModel(KModel):
                 break
             acc = r.fields['0']
         return r
+
+    def zip_all(self, z, clo, is_all, e):
+        """Zip::all / Zip::any: the predicate runs element by element until it answers false (all) / true (any): two generic elements"""
+        parts = z.d['parts']
+        self.zips.append([repr(p) for p in parts])
+        args = []
+        for p in parts:
+            if isinstance(p, Obj) and p.kind == 'ndarr' and p.d['role'] == 'query':
+                args.append(Ref(ValPlace(Num(Rat.atom('%s[e]' % p.d['name'])))))
+            elif isinstance(p, Obj) and p.kind == 'axis_iter_mut':
+                v = p.d['of']
+                args.append(Obj('view', root=v.d['root'], rootkind=v.d['rootkind'], shape=v.d['shape'].drop_first(e), lead='axis0[e]',
+                                ones=Rat.const(0)))
+            else:
+                raise Unsupported("Zip operand %r in a batch predicate" % (p,), e)
+        for tag in ('e', 'e2'):
+            self.cur_elem = tag
+            self.loop_elems += 1
+            try:
+                r = deref_all(self.interp.apply(clo, args, e))
+            finally:
+                self.cur_elem = None
+            if not isinstance(r, B):
+                raise Unsupported("the predicate handed to Zip::%s is not decided: %r" % ('all' if is_all else 'any', r), e)
+            self.events.append(('fold_step', tag, 'Done' if r.b != is_all else 'Continue'))
+            if r.b != is_all:
+                return B(not is_all)
+        return B(is_all)
 
     # ------------------------------------------------------------ sink
     def sink(self, args, e):
